@@ -476,10 +476,10 @@ fn sweeps(t: Tier) -> Vec<Sweep> {
         Sweep { primary: "-ipath", prefix: vec![], alphabet: vec!["[", "]", "!", ":", "\\", "*", "a", "\u{e9}"], maxlen: q(3, 5), extra: vec![], invalid: never },
         Sweep { primary: "-lname", prefix: vec![], alphabet: vec!["[", "]", ":", "a", "\u{e9}", "^"], maxlen: q(3, 5), extra: vec![], invalid: never },
         Sweep { primary: "-perm", prefix: vec![], alphabet: vec!["u", "g", "o", "a", "+", "-", "=", "/", "r", "w", "x", "s", "t", "X", "7", "8", ",", "\u{e9}"], maxlen: q(4, 5), extra: vec!["", "77777", "07777", "u=rwx,g=rx,o=", "-u+x,", "u+r,,g+w"], invalid: perm_invalid },
-        Sweep { primary: "-size", prefix: vec![], alphabet: vec!["+", "-", "0", "1", "9", "k", "c", "G", "x", " ", "\u{e9}"], maxlen: q(4, 5), extra: vec!["", "9223372036854775807", "9223372036854775808", "18446744073709551615", "18446744073709551616", "+18446744073709551616k"], invalid: size_invalid },
+        Sweep { primary: "-size", prefix: vec![], alphabet: vec!["+", "-", "0", "1", "9", "k", "c", "G", "x", " ", "\u{e9}"], maxlen: q(4, 5), extra: vec!["", "9223372036854775807", "9223372036854775808", "18446744073709551615", "18446744073709551616", "+18446744073709551616k", "\u{663}", "1\u{663}", "+\u{ff11}", "-12\u{ff11}", "\u{b2}", "5\u{b2}", "\u{1d7d5}", "\u{663}\u{663}", "9\u{1d7d5}9", "1\u{663}k", "+\u{ff11}c"], invalid: size_invalid },
         Sweep { primary: "-type", prefix: vec![], alphabet: vec!["f", "d", "l", "p", "s", "b", "c", ",", "D", "x", "\u{e9}"], maxlen: q(2, 3), extra: vec![""], invalid: type_invalid },
         Sweep { primary: "-xtype", prefix: vec![], alphabet: vec!["f", "d", "l", ",", "x"], maxlen: q(2, 3), extra: vec![""], invalid: type_invalid },
-        Sweep { primary: "-maxdepth", prefix: vec![], alphabet: vec!["+", "-", "0", "1", "9", "x", " ", "\u{e9}"], maxlen: q(3, 4), extra: vec!["", "18446744073709551616"], invalid: never },
+        Sweep { primary: "-maxdepth", prefix: vec![], alphabet: vec!["+", "-", "0", "1", "9", "x", " ", "\u{e9}"], maxlen: q(3, 4), extra: vec!["", "18446744073709551616", "\u{663}", "1\u{663}", "+\u{ff11}", "-12\u{ff11}", "\u{b2}", "5\u{b2}", "\u{1d7d5}", "\u{663}\u{663}", "9\u{1d7d5}9"], invalid: never },
         Sweep { primary: "-mindepth", prefix: vec![], alphabet: vec!["+", "-", "0", "1", "x"], maxlen: q(3, 3), extra: vec![""], invalid: never },
         Sweep { primary: "-regextype", prefix: vec![], alphabet: vec![], maxlen: 0, extra: vec!["", "foo", "EMACS", "emacs ", "posix", "posix-extende", "posix-extended2", "awk", "posix-egrep", "egrep", "gnu-awk", "posix-awk", "posix-minimal-basic", "findutils-default", "ed", "sed", "grep", "emacs", "posix-basic", "posix-extended"], invalid: regextype_invalid },
         Sweep { primary: "-user", prefix: vec![], alphabet: vec![], maxlen: 0, extra: vec!["", "root", "0", "54321", "zzunknownuser", "zz 1", "99999999999999999999", "4294967295", "4294967296", "99999999999", "18446744073709551615", "-1", "\u{e9}"], invalid: user_invalid },
@@ -491,7 +491,7 @@ fn sweeps(t: Tier) -> Vec<Sweep> {
         v.push(Sweep { primary: p, prefix: vec![], alphabet: vec!["jan 01", ", ", " ", "2", "0", "\u{662}", "12:00:00", "x", "\u{e9}"], maxlen: n, extra: vec!["", "jan 01, 2025", "jan 01, 2025 00:00:01", "feb 30, 2025", "jan 01, 0000", "zzz 99, 9999 99:99:99", ", \u{967}\u{966}\u{968}\u{96b}"], invalid: date_invalid });
     }
     for p in ["-links", "-inum", "-uid", "-gid", "-mtime", "-atime", "-ctime", "-mmin", "-amin", "-cmin"] {
-        v.push(Sweep { primary: p, prefix: vec![], alphabet: vec!["+", "-", "0", "1", "9", "x", " ", "\u{e9}"], maxlen: q(3, 4), extra: vec!["", "18446744073709551615", "18446744073709551616", "+9223372036854775808"], invalid: number_invalid });
+        v.push(Sweep { primary: p, prefix: vec![], alphabet: vec!["+", "-", "0", "1", "9", "x", " ", "\u{e9}"], maxlen: q(3, 4), extra: vec!["", "18446744073709551615", "18446744073709551616", "+9223372036854775808", "\u{663}", "1\u{663}", "+\u{ff11}", "-12\u{ff11}", "\u{b2}", "5\u{b2}", "\u{1d7d5}", "\u{663}\u{663}", "9\u{1d7d5}9"], invalid: number_invalid });
     }
     for ty in ["emacs", "posix-basic", "posix-extended", "grep", "ed", "sed"] {
         v.push(Sweep {
